@@ -98,15 +98,21 @@ func binarySession(run *ev.Run, unit int64, r *rand.Rand, dir, bin string, tlsd 
 	var api string
 	straceN := 0
 	syscallMode := unit%2 == 1 // every other session dies AT a storage syscall instead of at a random instant
+	var logbuf bytes.Buffer
+	var lmu sync.Mutex
+	var curExited chan struct{}
 	killGroup := func() {
 		if cmd != nil && cmd.Process != nil {
 			_ = syscall.Kill(-cmd.Process.Pid, syscall.SIGKILL)
-			_, _ = cmd.Process.Wait()
+			if curExited != nil {
+				select {
+				case <-curExited:
+				case <-time.After(10 * time.Second):
+				}
+			}
 		}
 	}
-	var logbuf bytes.Buffer
-	var lmu sync.Mutex
-	start := func() (*stubs.Backend, error) {
+	launch := func() (chan struct{}, error) {
 		api = freePort()
 		args := []string{}
 		if straceN > 0 {
@@ -120,6 +126,7 @@ func binarySession(run *ev.Run, unit int64, r *rand.Rand, dir, bin string, tlsd 
 		cmd.Env = append(os.Environ(), "SSL_CERT_FILE="+tlsd.CAFile, "SSL_CERT_DIR="+tlsd.EmptyDir, "VERIF_LOGS_YAML="+yamlPath)
 		pr, pw := io.Pipe()
 		cmd.Stdout, cmd.Stderr = pw, pw
+		cmd.WaitDelay = 2 * time.Second
 		go func() {
 			buf := make([]byte, 4096)
 			for {
@@ -137,7 +144,40 @@ func binarySession(run *ev.Run, unit int64, r *rand.Rand, dir, bin string, tlsd 
 		if err := cmd.Start(); err != nil {
 			return nil, err
 		}
-		return bast.Accept(60 * time.Second)
+		exited := make(chan struct{})
+		c := cmd
+		go func() { _ = c.Wait(); pw.Close(); close(exited) }()
+		curExited = exited
+		return exited, nil
+	}
+	start := func() (*stubs.Backend, error) {
+		type accRes struct {
+			be  *stubs.Backend
+			err error
+		}
+		exited, err := launch()
+		if err != nil {
+			return nil, err
+		}
+		acc := make(chan accRes, 1)
+		go func() { be, err := bast.Accept(90 * time.Second); acc <- accRes{be, err} }()
+		for {
+			select {
+			case a := <-acc:
+				return a.be, a.err
+			case <-exited:
+				if straceN == 0 {
+					return nil, fmt.Errorf("the process exited before connecting to the bastion")
+				}
+				// an armed process can reach its N-th storage syscall while it recovers the journal of the
+				// previous kill at start-up: that is one more kill, not a failure to start
+				run.Count("binary_kills_during_startup")
+				straceN = 0
+				if exited, err = launch(); err != nil {
+					return nil, err
+				}
+			}
+		}
 	}
 	hc := &http.Client{Timeout: 5 * time.Second}
 	served := func(l *gen.Log) (int, []byte) {
@@ -167,7 +207,11 @@ func binarySession(run *ev.Run, unit int64, r *rand.Rand, dir, bin string, tlsd 
 	kills := run.Pick(3, 5)
 	for k := 0; k < kills; k++ {
 		// some acknowledged updates
-		for i, n := 0, r.IntN(5); i < n; i++ {
+		pre := r.IntN(5)
+		if straceN > 0 {
+			pre = 0 // an armed process may die in any update: every update of this life is a candidate in-flight one
+		}
+		for i, n := 0, pre; i < n; i++ {
 			l := w.U.Logs[r.IntN(len(w.U.Logs))]
 			nx := cur[l] + uint64(r.IntN(3))
 			if cur[l] == 0 {
